@@ -602,10 +602,14 @@ def _run_nrt9(prog):
                 super().do(st, who, clock)
     main.reset()
     run = Run9(prog, 'nrt')
-    run.setup()
-    for op in prog['actors']['main']:
-        run.do(op, 'main')
-    main.process(0.0)
+    try:
+        run.setup()
+        for op in prog['actors']['main']:
+            run.do(op, 'main')
+        main.process(0.0)
+    except Exception as e:      # observable: the run does not complete
+        run.trace.append(['raises', 'run', None,
+                          f'{type(e).__name__}: {e}'[:200]])
     return run.trace
 
 
@@ -1090,6 +1094,37 @@ def main(ctx):
         'subject']
     from mc.engines import progenum
     quick = ctx.tier == 'quick'
+    # the queue itself first: its consumers are only meaningful (and their
+    # runs only reproducible case by case) on a queue that keeps the model
+    if quick:
+        histbfs.run(ctx, MODNAME, 'taskq',
+                    {'prios': [0, 1, 2], 'tasks': ['a', 'b', 'c']}, depth=7)
+        histbfs.run(ctx, MODNAME, 'taskq',
+                    {'prios': [-INF, -1, 0.5], 'tasks': ['', 0, 'c']},
+                    depth=5)
+        histbfs.run(ctx, MODNAME, 'score', {'times': [0.0, 0.5, 1.0]},
+                    depth=5)
+        histbfs.run(ctx, MODNAME, 'score',
+                    {'times': [None, -0.5, 0.5, 1, 1.0], 'tails': [0.0, 0.5]},
+                    depth=4)
+    else:
+        histbfs.run(ctx, MODNAME, 'taskq',
+                    {'prios': [0, 1, 2], 'tasks': ['a', 'b', 'c']}, depth=8)
+        histbfs.run(ctx, MODNAME, 'taskq',
+                    {'prios': [0, 1, INF], 'tasks': ['a', 'b', 'c', 'd']},
+                    depth=6)
+        histbfs.run(ctx, MODNAME, 'taskq',
+                    {'prios': [-INF, -1, 0.5], 'tasks': ['', 0, 'c']},
+                    depth=7)
+        histbfs.run(ctx, MODNAME, 'score', {'times': [0.0, 0.5, 1.0, 2.0]},
+                    depth=6)
+        histbfs.run(ctx, MODNAME, 'score',
+                    {'times': [None, -0.5, 0.5, 1, 1.0, 2.0],
+                     'tails': [0.0, 0.5, 3.0]}, depth=5)
+    if ctx.violations:
+        ctx.extra['consumer_families'] = ('skipped: the queue itself '
+                                          'disagrees with the model')
+        return
     jobs = [{'shard': i, 'of': 32} for i in range(32)]
     if quick:
         for j in jobs:
@@ -1133,28 +1168,3 @@ def main(ctx):
                  bound='TaskQueue fill(5' + ('' if quick else '-6') +
                        ' tasks, 3 priorities)-disturb-drain' +
                        (' - 1/2 slice chosen by the seed' if quick else ''))
-    if quick:
-        histbfs.run(ctx, MODNAME, 'taskq',
-                    {'prios': [0, 1, 2], 'tasks': ['a', 'b', 'c']}, depth=7)
-        histbfs.run(ctx, MODNAME, 'taskq',
-                    {'prios': [-INF, -1, 0.5], 'tasks': ['', 0, 'c']},
-                    depth=5)
-        histbfs.run(ctx, MODNAME, 'score', {'times': [0.0, 0.5, 1.0]},
-                    depth=5)
-        histbfs.run(ctx, MODNAME, 'score',
-                    {'times': [None, -0.5, 0.5, 1, 1.0], 'tails': [0.0, 0.5]},
-                    depth=4)
-    else:
-        histbfs.run(ctx, MODNAME, 'taskq',
-                    {'prios': [0, 1, 2], 'tasks': ['a', 'b', 'c']}, depth=8)
-        histbfs.run(ctx, MODNAME, 'taskq',
-                    {'prios': [0, 1, INF], 'tasks': ['a', 'b', 'c', 'd']},
-                    depth=6)
-        histbfs.run(ctx, MODNAME, 'taskq',
-                    {'prios': [-INF, -1, 0.5], 'tasks': ['', 0, 'c']},
-                    depth=7)
-        histbfs.run(ctx, MODNAME, 'score', {'times': [0.0, 0.5, 1.0, 2.0]},
-                    depth=6)
-        histbfs.run(ctx, MODNAME, 'score',
-                    {'times': [None, -0.5, 0.5, 1, 1.0, 2.0],
-                     'tails': [0.0, 0.5, 3.0]}, depth=5)
